@@ -89,7 +89,9 @@ namespace qx
   inline int cmp(const E &a, const E &b)
   {
     int c = cmp(a.r, b.r);
-    return c ? c : cmp(a.e, b.e);
+    if (c || !a.r.finite())
+      return c; // an infinite rational part denotes the same point whatever the infinitesimal part
+    return cmp(a.e, b.e);
   }
   inline bool operator==(const E &a, const E &b) { return cmp(a, b) == 0; }
   inline bool operator!=(const E &a, const E &b) { return cmp(a, b) != 0; }
@@ -97,6 +99,7 @@ namespace qx
   inline bool operator<=(const E &a, const E &b) { return cmp(a, b) <= 0; }
   inline std::string str(const E &a)
   {
+    if (!a.r.finite()) return str(a.r);
     if (a.e.finite() && ::sgn(a.e.v) == 0) return str(a.r);
     return str(a.r) + " + " + str(a.e) + "eps";
   }
